@@ -44,7 +44,7 @@ PROPS["C14"] = {
              "manner (client shutdown, carrier reset, garbage frame, partition until the multiplexer keep-alive gives up, or not at all) and compares with idle; "
              "footprint = goroutines of the bubble grouped by creation site (harness excluded) + open simulated sockets/listeners; non-trivial = both batches "
              "completed; distinct = schedule shapes"),
-    "probes": ["logical_connections", "refused_connections", "session_end_checked", "fault_carrier_reset", "fault_carrier_timeout", "fault_partition", "fault_garbage_frame", "end_client_shutdown", "end_server_closes"],
+    "probes": ["logical_connections", "refused_connections", "silent_peers", "session_end_checked", "fault_carrier_reset", "fault_carrier_timeout", "fault_partition", "fault_garbage_frame", "end_client_shutdown", "end_server_closes"],
     "technique": "deterministic simulation: histories of N and 2N connections and fault-ended sessions, resource-ledger oracle + busy-loop detector",
     "level_text": ("Seeded exploration of connection histories and session endings. The oracle is a resource ledger taken at quiescent points after a drain of 150 "
                    "simulated seconds: constant (not linear) in the number of past connections, back to idle after the session ended, and no goroutine that emits "
@@ -190,7 +190,7 @@ PROPS["C19"] = {
              "StreamWrappedConnection and BufferedInputConnection (including re-wrapping an already-safe wrapper) over counting fake resources with a drawn fault (close fails once / always, "
              "read/write fail or are short, already closed), then a sequential history of up to 14 calls {Close, Closed, Read, Write, String, TryClose, LogClose} addressed to any wrapper of the tree; "
              "non-trivial = at least one call was made; distinct = composition x call sequence"),
-    "probes": ["closes_checked", "status_checked"],
+    "probes": ["closes_checked", "status_checked", "owner_closes_of_borrowed_connection"],
     "technique": "deterministic simulation (degenerate: callers as nodes, the wrapped resource as the faulty disk): generated wrapper trees x call histories x failing resource, close-ledger oracle",
     "level_text": ("Seeded exploration with a close ledger: every fake resource is closed at most once at all times and exactly once after a Close on any wrapper above it; a repeated Close returns nil; "
                    "a first Close returns nil unless a resource below fails; Closed() is true on a wrapper that was closed and false while nothing in its chain was; a connection merely borrowed by "
@@ -270,7 +270,7 @@ PROPS["C13"] = {
              "5-minute stale timeout and the 30-minute old-session timeout all fire), spoofed request {packet with data and plausible or arbitrary sequence numbers, poll with ack, close, fragment "
              "probe, set fragment size} carrying a live or closed session's identifier from a foreign address or (for closed sessions) the old address}; after every operation all sessions that "
              "have been exchanging data continuously move fresh data both ways; non-trivial = the whole history was judged; distinct = histories"),
-    "probes": ["sessions_opened", "sessions_closed", "sessions_silenced", "fault_clock_jump", "spoofed_messages", "spoofs_rejected", "history_ops"],
+    "probes": ["sessions_opened", "sessions_from_a_reused_address", "late_closes_of_retired_connections", "sessions_closed", "sessions_silenced", "fault_clock_jump", "spoofed_messages", "spoofs_rejected", "history_ops"],
     "technique": "deterministic simulation: histories of k sessions x clock jumps x spoofed messages against the real DNS server, session-table model (distinct ids, per-session PRF streams, spoof rejection, survival across expiry and slot reuse)",
     "level_text": ("Seeded exploration of session histories under a simulated clock. Oracles: live sessions hold pairwise distinct identifiers; every session's streams carry only its own peer's PRF "
                    "data; a spoofed message from a foreign address is answered with an error, never with session data, and the victim's following transfer completes unaltered; a session that "
